@@ -59,7 +59,7 @@ const RO_META_ITEMS: [&str;5] = [
     "disk_sides",
     "largest_track",
     "flux_block",
-    "largest_flux_block"
+    "largest_flux_track"
 ];
 
 const COMPATIBLE_HARDWARE_OPT: [&str;9] = [
